@@ -28,7 +28,7 @@ func init() {
 				"profile, device and their nested settings types is read by the cache encoder and written by the decoder. R7: no " +
 				"encoder loop appends a view of a buffer that the next iteration overwrites.",
 			NotCovered: "that the maps equal a reference model after arbitrary synchronisation sequences; protobuf wire compatibility.",
-			Rules: map[string]string{"C14-R18": "every clean-up goroutine of the profile database deletes from the index map that the lookup which starts it reads", "C14-R19": "the access settings a profile was built with are what Config() reports for the file cache, whether or not the profile has served a query in between (shared with C10-R6)", "C14-R17": "the backendpb converters read a field through a sub-message pointer only after a nil test of it (a panic in the synchronisation ends the periodic refresh loop)", "C14-R16": "ProfileStorage.Profiles hands on every received profile that converts (from the success edge of toInternal the next receive is reachable only through the appends to Profiles and Devices)", "C14-R15": "ProfileByHumanID answers only when the profile that contains the found device is the requested one (stale (profile, human ID) keys of moved devices)", "C14-RC": "class rules (error chains, shadowed results, character classes, crossed arguments, pool constructors, array pools, loop completeness, loop-carried buffers, replacing setters, complete clones, Grow arithmetic, pooled-buffer escape, sorted searches, fresh decode targets, per-iteration objects, whole-message copies, codec guards) over the packages this property rests on", "C14-R14": "profile decoders return a usable value, never a nil interface, on error-free paths (expected count zero; F16 was the one instance)", "C14-R13": "profile codecs: early default returns only for nil / disabled input; nil sub-messages only for nil input (shared class rules)", "C14-R12": "the periodic refresh worker that drives the profile sync (shared rule, see C13-R11)", "C14-R11": "weekly-schedule codecs: all seven weekdays converted, each from/to the field of its own day (constant-index stores or a full loop over a weekday-ordered list)", "C14-R1": "maps and generation only under mapsMu", "C14-R2": "clean-ups re-validated by generation; inserts bump it",
+			Rules: map[string]string{"C14-R20": "filecachepb.(*Ratelimiter).toInternal: the global limiter exactly for absent or disabled settings, otherwise the profile's own with the stored limit and subnets (shared with C09-R13)", "C14-R21": "filecachepb.ipToBytes stores netip.Addr.MarshalBinary of the address, so a device without a linked IP comes back without one", "C14-R18": "every clean-up goroutine of the profile database deletes from the index map that the lookup which starts it reads", "C14-R19": "the access settings a profile was built with are what Config() reports for the file cache, whether or not the profile has served a query in between (shared with C10-R6)", "C14-R17": "the backendpb converters read a field through a sub-message pointer only after a nil test of it (a panic in the synchronisation ends the periodic refresh loop)", "C14-R16": "ProfileStorage.Profiles hands on every received profile that converts (from the success edge of toInternal the next receive is reachable only through the appends to Profiles and Devices)", "C14-R15": "ProfileByHumanID answers only when the profile that contains the found device is the requested one (stale (profile, human ID) keys of moved devices)", "C14-RC": "class rules (error chains, shadowed results, character classes, crossed arguments, pool constructors, array pools, loop completeness, loop-carried buffers, replacing setters, complete clones, Grow arithmetic, pooled-buffer escape, sorted searches, fresh decode targets, per-iteration objects, whole-message copies, codec guards) over the packages this property rests on", "C14-R14": "profile decoders return a usable value, never a nil interface, on error-free paths (expected count zero; F16 was the one instance)", "C14-R13": "profile codecs: early default returns only for nil / disabled input; nil sub-messages only for nil input (shared class rules)", "C14-R12": "the periodic refresh worker that drives the profile sync (shared rule, see C13-R11)", "C14-R11": "weekly-schedule codecs: all seven weekdays converted, each from/to the field of its own day (constant-index stores or a full loop over a weekday-ordered list)", "C14-R1": "maps and generation only under mapsMu", "C14-R2": "clean-ups re-validated by generation; inserts bump it",
 				"C14-R3": "full sync clears all maps", "C14-R4": "lookup re-check decision trees", "C14-R5": "atomic cache write, version check",
 				"C14-R6": "codec field coverage", "C14-R7": "no loop-carried buffer aliasing in the encoder",
 				"C14-R8": "synchronisation protocol tables: Refresh (apply exactly what was fetched, advance the sync point, store the file cache on a full sync), fetchProfiles (a full sync asks from the zero time), needsFullSync, loadFileCache"},
@@ -42,6 +42,26 @@ const pdb = "profiledb.(*Default)."
 
 func runC14(c *an.Ctx) {
 	classSweep(c, "C14")
+	// ---- R20: a profile's rate-limit settings come back from the file cache as they went in (table shared with
+	// C09-R13); R21: an address is stored in its marshalled form, in which "no address" stays "no address"
+	c.Floor("C14-R20", 1)
+	c.Borrow("C14-R20", runC09, func(o an.Obligation) bool { return o.Rule == "C09-R13" && strings.Contains(o.Key, "filecachepb.(*Ratelimiter).toInternal") })
+	c.Floor("C14-R21", 1)
+	decide(c, "C14-R21", "profiledb/internal/filecachepb.ipToBytes", an.DecideCfg{
+		Dom: an.Domain{},
+		OnCall: func(it *an.Interp, name string, args []an.AV) (an.AV, bool) {
+			if strings.HasSuffix(name, "netip.Addr).MarshalBinary") {
+				return an.AV{Kind: an.KTuple, Tup: []an.AV{an.Sym("marshalled(" + args[0].String() + ")"), an.Nil()}}, true
+			}
+			return an.AV{}, false
+		},
+		Expect: func(f an.Features, o an.AOutcome) string {
+			if o.Exit != "return" || o.RetString() != "marshalled(p0)" {
+				return "netip.Addr.MarshalBinary of the address (empty for the zero address, which the reader turns back into the zero address; sixteen zero bytes would come back as ::); got " + o.RetString()
+			}
+			return ""
+		},
+	})
 	// ---- R18: a clean-up goroutine deletes from the index its lookup read; R19: a profile's access rules survive
 	// being consulted before the file cache is written (shared with C10-R6)
 	if n := c14CleanupSameIndex(c, "C14-R18"); n < 3 {
